@@ -95,7 +95,8 @@ def proofs(pid, mod):
     """Returns dict(obligations, discharged, theorems, axioms, errors)."""
     res = {"obligations": 0, "discharged": 0, "theorems": [], "axioms": {}, "errors": []}
     comps = sorted({p.component for p in mod.PARTS})
-    r = run([os.path.join(V, "tools", "build_model.sh")] + comps)
+    e = dict(os.environ); e["VERIF_PROPS"] = pid
+    r = run([os.path.join(V, "tools", "build_model.sh")] + comps, env=e)
     res["build_status"] = r.returncode
     res["build_log"] = r.stdout[-3000:]
     for c in comps:
